@@ -415,7 +415,7 @@ def run_family(ctx, facets, prop):
                         '; '.join(t for k, t in r['viol'])[:200], expect='violated')
                 continue
             for key, text in r['viol']:
-                if key.startswith(prop) or (prop == 'C04' and key.startswith('C14')) or (prop == 'C04' and key.startswith('C05')):
+                if key.startswith(prop) or (prop == 'C04' and key.startswith(('C14', 'C05', 'C01'))) or (prop == 'C07' and key.startswith('C01')):
                     ctx.violation(key, text + ' (replay: props/asm_cbc.py run_manager%s re-executes the unit and prints the model)' % (r['args'],))
     ctx.extra.setdefault('asmx', {}).update({'cbc_paths': tot['paths'], 'cbc_instructions_executed_symbolically': tot['steps'], 'cbc_solver_queries': tot['queries']})
     return tot
